@@ -130,6 +130,7 @@ func (cj *CookieJar) Set(uri *fasthttp.URI, cookies ...*fasthttp.Cookie) {
 //
 // CookieJar stores copies of the provided cookies, so they may be safely released after use.
 func (cj *CookieJar) SetByHost(host []byte, cookies ...*fasthttp.Cookie) {
+	host = hostWithoutPort(host)
 	hostStr := utils.UnsafeString(host)
 
 	cj.mu.Lock()
@@ -190,6 +191,7 @@ func (cj *CookieJar) dumpCookiesToReq(req *fasthttp.Request) {
 
 // parseCookiesFromResp parses the cookies from the response and stores them for the specified host and path.
 func (cj *CookieJar) parseCookiesFromResp(host, path []byte, resp *fasthttp.Response) {
+	host = hostWithoutPort(host)
 	hostStr := utils.UnsafeString(host)
 
 	cj.mu.Lock()
@@ -260,6 +262,15 @@ func (cj *CookieJar) Release() {
 	//	  }
 	// }
 	cj.hostCookies = nil
+}
+
+// hostWithoutPort strips the port: cookies are looked up by host name only (see getByHostAndPath),
+// so they have to be stored that way as well.
+func hostWithoutPort(host []byte) []byte {
+	if h, _, err := net.SplitHostPort(utils.UnsafeString(host)); err == nil {
+		return utils.UnsafeBytes(h)
+	}
+	return host
 }
 
 // hasZeroMaxAge reports whether a Set-Cookie value carries "max-age=0" or a negative Max-Age.
